@@ -647,7 +647,8 @@ def run(coro):
 # deterministic classifier of an input (used in violation signatures, so that a known finding only masks itself)
 # ------------------------------------------------------------------------------------------------------------
 def trigger_of(proto: str, data: bytes) -> str:
-    """"h2c_bad_settings": an HTTP/1 h2c upgrade request whose HTTP2-Settings value is not a base64url SETTINGS payload (F43).
+    """"h2c_bad_settings": an HTTP/1 h2c upgrade request whose HTTP2-Settings value is not a base64url SETTINGS payload that h2
+    accepts (F43).
     (F44 is recognised from the taps: `next(self.priority)` raised RecursionError.)"""
     import base64
     import re
@@ -658,6 +659,13 @@ def trigger_of(proto: str, data: bytes) -> str:
             try:
                 raw = base64.urlsafe_b64decode(v.decode("ascii") + "=" * (-len(v) % 4))
                 ok = len(raw) % 6 == 0 and re.fullmatch(rb"[A-Za-z0-9_\-=]*", v) is not None
+                if ok:
+                    # … and every (identifier, value) pair is one h2 accepts (InvalidSettingsValueError otherwise: same defect,
+                    # the value is handed to h2 after the 101 has been written)
+                    from h2.settings import _validate_setting
+                    for k in range(0, len(raw), 6):
+                        if _validate_setting(int.from_bytes(raw[k:k + 2], "big"), int.from_bytes(raw[k + 2:k + 6], "big")) != 0:
+                            ok = False
             except Exception:
                 ok = False
             if not ok:
